@@ -880,24 +880,41 @@ def run_concolic(ct, draws, rng):
 
 
 def _atom_values(path, env):
-    """numeric values of atoms created so far (definitions evaluated at env)"""
-    for key, (r, e) in path.sqrt_atoms.items():
-        if r not in env:
-            v = num_eval(e, env)
-            env[r] = math.sqrt(v) if v >= 0 else float('nan')
-    for key, (c, s, base) in path.trig_atoms.items():
-        if c not in env:
-            v = num_eval(base, env)
-            env[c], env[s] = math.cos(v), math.sin(v)
-    for key, (at, name, args) in path.fun_atoms.items():
-        if at not in env:
-            vs = [num_eval(a, env) for a in args]
-            f = {'exp': math.exp, 'log': math.log, 'arccos': math.acos, 'arcsin': math.asin,
-                 'arctan': math.atan, 'pow': math.pow}[name]
-            try:
-                env[at] = f(*vs)
-            except (ValueError, OverflowError):
-                env[at] = float('nan')
+    """numeric values of atoms created so far (definitions evaluated at env); atoms may be defined over other atoms
+    (the cosine of an arcsin, a root of a root): evaluated to a fixed point in dependency order"""
+    for _round in range(6):
+        pending = 0
+        for key, (r, e) in path.sqrt_atoms.items():
+            if r not in env:
+                try:
+                    v = num_eval(e, env)
+                except KeyError:
+                    pending += 1
+                    continue
+                env[r] = math.sqrt(v) if v >= 0 else float('nan')
+        for key, (c, s, base) in path.trig_atoms.items():
+            if c not in env:
+                try:
+                    v = num_eval(base, env)
+                except KeyError:
+                    pending += 1
+                    continue
+                env[c], env[s] = math.cos(v), math.sin(v)
+        for key, (at, name, args) in path.fun_atoms.items():
+            if at not in env:
+                try:
+                    vs = [num_eval(a, env) for a in args]
+                except KeyError:
+                    pending += 1
+                    continue
+                f = {'exp': math.exp, 'log': math.log, 'arccos': math.acos, 'arcsin': math.asin,
+                     'arctan': math.atan, 'pow': math.pow}[name]
+                try:
+                    env[at] = f(*vs)
+                except (ValueError, OverflowError):
+                    env[at] = float('nan')
+        if not pending:
+            break
 
 
 def num_eval(e, env):
